@@ -5,7 +5,8 @@ For each seeded change: a scratch git worktree of /repo is created outside /repo
 test suite run (must keep the baseline outcome), the demonstration run (must exit 1 with the patch, 0 without), and the
 property's check run with PYTHONPATH pointing at the scratch tree (must exit 1 with a VIOLATION line). Evidence and replays of
 these runs go to a scratch directory, never into /verif/evidence. The worktree is removed afterwards.
-  usage: tools/run_seeded.py [<seeded-id> ...] [--tier quick|thorough] [--in-repo]
+  usage: tools/run_seeded.py [<seeded-id> ...] [--tier quick|thorough] [--seeds 0,1,2] [--in-repo]
+"detected" means: detected under every listed seed (VERIF_SEED).
 --in-repo applies the patch to /repo itself (git apply / git checkout -- .) instead of a worktree.
 """
 import json
@@ -33,6 +34,11 @@ def main():
         tier = sys.argv[sys.argv.index("--tier") + 1]
         args = [a for a in args if a != tier]
     in_repo = "--in-repo" in sys.argv
+    seeds = [0]
+    if "--seeds" in sys.argv:
+        sv = sys.argv[sys.argv.index("--seeds") + 1]
+        seeds = [int(x) for x in sv.split(",")]
+        args = [a for a in args if a != sv]
     ids = args or sorted(d for d in os.listdir(SEEDED) if os.path.isdir(os.path.join(SEEDED, d)))
     results = {}
     for sid in ids:
@@ -55,8 +61,14 @@ def main():
             rc, tests = sh(PYTEST, cwd=tree, env=env)
             tests_tail = tests.strip().split("\n")[-1]
             rc_demo, demo_out = sh([PY, os.path.join(d, "demo.py")], cwd=scratch, env=env)
-            rc_chk, chk_out = sh([os.path.join(VERIF, "check"), prop, "--tier", tier], cwd=VERIF, env=env)
-            vio = [l for l in chk_out.split("\n") if l.startswith("VIOLATION")]
+            per_seed = {}
+            for sd in seeds:
+                rc_chk, chk_out = sh([os.path.join(VERIF, "check"), prop, "--tier", tier], cwd=VERIF,
+                                     env=dict(env, VERIF_SEED=str(sd)))
+                vio = [l for l in chk_out.split("\n") if l.startswith("VIOLATION")]
+                per_seed[str(sd)] = bool(rc_chk == 1 and vio)
+                if not per_seed[str(sd)]:
+                    break               # report the first seed that misses it
             replay = None
             if vio:
                 path = vio[0].split("replay=")[1].split()[0]
@@ -71,7 +83,7 @@ def main():
                 touched = None
             results[sid] = {"property": prop, "modelled_functions_changed": touched, "tests": tests_tail, "demo_exit_patched": rc_demo, "check_exit": rc_chk,
                             "violation_line": vio[0] if vio else None, "what": replay,
-                            "detected": rc_chk == 1 and bool(vio)}
+                            "detected_per_seed": per_seed, "detected": all(per_seed.values())}
         finally:
             if in_repo:
                 sh(["git", "-C", "/repo", "checkout", "--", "."])
